@@ -41,6 +41,13 @@ def scenarios(rep, tier, seed):
         if scn["mode"] == "pre" and i % 4 == 1:
             scn["D"] = (np.array(scn["D"]) * 1e-12).tolist()
         scns.append(scn)
+    # histogram-like data (non-negative, many exact zeros) under the ratio / log metrics: the arcs the forest is judged on are the
+    # metric's values on the caller's samples, however often the training evaluated them before
+    rng3 = random.Random(seed * 1000003 + 101)
+    for i in range(240 if thorough else 48):
+        met = S.ZERO_TOLERANT_METRICS[i % len(S.ZERO_TOLERANT_METRICS)]
+        scn = S.random_float_scenario(rng3, metric=met, n=rng3.randrange(3, 12), nq=3, dim=rng3.randrange(2, 6), sparse=True, mode="metric", classes=rng3.choice([2, 3]))
+        scns.append(scn)
     return scns
 
 
